@@ -13,6 +13,7 @@ THEOREMS = [
     "B2Z.LA.C17_laa_spec", "B2Z.LA.C17_laa_sorted_distinct", "B2Z.LA.C17_laa_rows", "B2Z.LA.C17_laa_row_content",
     "B2Z.LA.C17_pair_enumeration", "B2Z.LA.C17_pairs_length", "B2Z.LA.C17_lpl_spec_partial_diploid",
     "B2Z.LA.C17_lpl_spec_partial_haploid", "B2Z.LA.C17_lpl_haploid_counterexample", "B2Z.LA.C17_ploidy_rejected",
+    "B2Z.LA.C17_laa_set_invariant", "B2Z.LA.C17_laa_complete", "B2Z.LA.C17_laa_ref_or_missing",
 ]
 ASSUMPTIONS = [
     "cyvcf2 value conventions (genotype.array(): -1 missing allele, -2 ploidy padding; format('PL'): int32 min = missing, min+1 = fill) as stated in Model/LocalAlleles.lean; validated by correspondence",
